@@ -631,6 +631,22 @@ def run_transformed(name: str, tname: str, f, tf, xs) -> dict:
     return res
 
 
+# (function, transformation) pairs every quick run executes first
+ALWAYS = [("tanh", "jit_called_twice"), ("mlp", "jit_nested"), ("minimum_lowrank", "vmap_in_axes_none_last"),
+          ("minimum", "vmap_in_axes_1"), ("add_bcast", "vmap_in_axes_none_last"),
+          ("matmul", "grad"), ("softmax", "vmap_out_axes_last"), ("maximum_scalar", "vmap_in_axes_none_last"),
+          # a non-differentiated operand in front of a differentiated one, asymmetric functions
+          ("divide", "grad_argnums_last"), ("power", "grad_argnums_last"), ("atan2", "jvp_wrt_last"),
+          ("subtract", "vjp_wrt_last"), ("three_operands", "grad_argnums_first_last"),
+          ("three_operands", "grad_argnums_last"), ("maximum_const_first", "grad"),
+          ("power_const_base", "grad"), ("divide_const_first", "jvp"),
+          # reductions: non-leading batch axis x reduced axis in front of it x keepdims
+          ("sum_axis0_keep", "vmap_in_axes_1"), ("sum_axisN_keep", "vmap_in_axes_2"),
+          ("max_axis0_keep", "vmap_in_axes_2"), ("mean_axis0_keep", "vmap_in_axes_1_out_last"),
+          ("min_axis-1_keep", "vmap_in_axes_1"), ("sum_axis0_drop", "vmap_in_axes_2"),
+          ("amax_axisN_keep", "vmap_in_axes_1"), ("sum_axis-1_drop", "vmap_in_axes_2_all")]
+
+
 def explore(chk: Check, rng: common.Rng, thorough: bool, budget_s: float) -> list[dict]:
     t0 = time.time()
     cat = fn_catalogue()
@@ -647,21 +663,10 @@ def explore(chk: Check, rng: common.Rng, thorough: bool, budget_s: float) -> lis
         # the aliasing / batching patterns the design names are always run
         names = {c[0]: i for i, c in enumerate(cat)}
         tn = {t[0]: i for i, t in enumerate(trs)}
-        for fn, t in [("tanh", "jit_called_twice"), ("mlp", "jit_nested"), ("minimum_lowrank", "vmap_in_axes_none_last"),
-                      ("minimum", "vmap_in_axes_1"), ("add_bcast", "vmap_in_axes_none_last"),
-                      ("matmul", "grad"), ("softmax", "vmap_out_axes_last"), ("maximum_scalar", "vmap_in_axes_none_last"),
-                      # a non-differentiated operand in front of a differentiated one, asymmetric functions
-                      ("divide", "grad_argnums_last"), ("power", "grad_argnums_last"), ("atan2", "jvp_wrt_last"),
-                      ("subtract", "vjp_wrt_last"), ("three_operands", "grad_argnums_first_last"),
-                      ("three_operands", "grad_argnums_last"), ("maximum_const_first", "grad"),
-                      ("power_const_base", "grad"), ("divide_const_first", "jvp"),
-                      # reductions: non-leading batch axis x reduced axis in front of it x keepdims
-                      ("sum_axis0_keep", "vmap_in_axes_1"), ("sum_axisN_keep", "vmap_in_axes_2"),
-                      ("max_axis0_keep", "vmap_in_axes_2"), ("mean_axis0_keep", "vmap_in_axes_1_out_last"),
-                      ("min_axis-1_keep", "vmap_in_axes_1"), ("sum_axis0_drop", "vmap_in_axes_2"),
-                      ("amax_axisN_keep", "vmap_in_axes_1"), ("sum_axis-1_drop", "vmap_in_axes_2_all")]:
-            sel.add((names[fn], tn[t]))
-        combos = [(cat[ci], trs[ti]) for ci, ti in sorted(sel)]
+        must = [(names[fn], tn[t]) for fn, t in ALWAYS]
+        # the named patterns run first (they must not fall behind the deadline on a loaded machine)
+        ordered = must + [c for c in sorted(sel) if c not in set(must)]
+        combos = [(cat[ci], trs[ti]) for ci, ti in ordered]
     results = []
     for (name, f, shapes), (tname, T) in combos:
         if time.time() - t0 > budget_s:
@@ -722,7 +727,7 @@ def run(chk: Check) -> None:
     if bat_bad:
         chk.violation({"correspondence": "broadcast_batcher_compat differs from the proven model `broadcastBatcher`",
                        "cases": bat_bad[:20]}, name="batcher-correspondence", no_failing_input=True)
-    res = explore(chk, rng, thorough, 1e9 if thorough else max(60.0, 200.0 - (time.time() - t0)))
+    res = explore(chk, rng, thorough, 1e9 if thorough else 150.0)
     for r in res:
         if r["status"] in ("mismatch", "export_error", "ort_error"):
             key = {"fn": r["fn"], "transform": r["transform"], "family": family_of(r["transform"]),
